@@ -69,6 +69,11 @@ def run(ctx):
             for _ in range(20000):
                 sc = ctx.rng.choice(scores)
                 cases.append((len(cases), sc, [ctx.rng.choice(ops) for _ in range(ctx.rng.randint(3, 5))]))
+    if ctx.thorough and not ctx.replay:
+        from harness import fixtures
+        for sc in fixtures.slices("quantised"):
+            for o in ops:
+                cases.append((len(cases), {k: sc[k] for k in ("notes", "extras", "dur")}, [o]))
     res = pmap(replay, cases)
     obs = []
     for (idx, sc, ops_), lines in zip(cases, res):
